@@ -363,4 +363,52 @@ def Op.replaced (st : TState) : Op → List Nat
     else itemsAt (st.children s) (slicePositions (st.children s).length i j k)
   | _ => []
 
+/-! ### how an iterable argument is handed over
+
+`extend`, `+=`, slice assignment and the constructor take an ITERABLE.  The python code iterates it exactly once
+before it touches anything (`units = list(units)` in `extend`, `value = list(value)` in `__setitem__`,
+`list.__init__(units)` in `_SubUnitsList.__init__`) and works on the resulting list from then on; `stepSrc` mirrors
+that.  `extendLazy` is the same method WITHOUT the materialising line (parent loop over the argument, then
+`list.extend` over the argument): equal for re-iterable arguments, wrong for one-shot ones. -/
+
+/-- An iterable argument.  `items`: what its first complete iteration yields.  A re-iterable argument (list, tuple, any
+    `Sequence`, any object whose `__iter__` starts afresh) yields the same again; a one-shot one (generator, `iter(…)`,
+    `map`, `reversed`, `itertools.chain`) yields nothing once it has been iterated. -/
+structure Src where
+  items : List Nat
+  oneShot : Bool
+  spent : Bool
+  deriving Repr, DecidableEq
+
+def Src.fresh (items : List Nat) (oneShot : Bool) : Src := { items := items, oneShot := oneShot, spent := false }
+
+/-- one complete iteration (`list(arg)`, `for u in arg: …`, `list.extend(arg)`) -/
+def Src.iterate (a : Src) : List Nat × Src :=
+  (if a.oneShot && a.spent then [] else a.items, { a with spent := true })
+
+/-- the iterable argument of an operation -/
+def Op.arg? : Op → Option (List Nat)
+  | .construct us _ | .extend _ us | .iadd _ us | .setSlice _ _ _ us | .setSliceExt _ _ _ _ us => some us
+  | _ => none
+
+/-- the operation with another list of units as its argument -/
+def Op.withArg : Op → List Nat → Op
+  | .construct _ l, us => .construct us l
+  | .extend s _, us => .extend s us
+  | .iadd s _, us => .iadd s us
+  | .setSlice s i j _, us => .setSlice s i j us
+  | .setSliceExt s i j k _, us => .setSliceExt s i j k us
+  | op, _ => op
+
+/-- an operation whose argument arrives as an iterable: ONE iteration, then the operation on the resulting list -/
+def stepSrc (st : TState) (op : Op) (a : Src) : (TState × Out) × Src :=
+  (step st (op.withArg a.iterate.1), a.iterate.2)
+
+/-- `extend` without `units = list(units)`: `for u in units: u.parent = owner` iterates the argument, then
+    `list.extend(units)` iterates it again -/
+def extendLazy (st : TState) (s : Nat) (a : Src) : TState × Src :=
+  let us1 := a.iterate.1
+  let us2 := a.iterate.2.iterate.1
+  (setChildren (setParents st us1 (some s)) s (st.children s ++ us2), a.iterate.2.iterate.2)
+
 end Tree
